@@ -1291,6 +1291,7 @@ def isin_fn(ctx: Ctx, b: Arr):
         )
     )
     b.ghost[key] = (mem, wit)
+    ctx.log_ghost("isin", (mem, wit))
     return b.ghost[key]
 
 
@@ -1571,6 +1572,19 @@ def seq_as_row(ctx: Ctx, seq):
         ctx.assume(ax, trusted="lemma:product of positive extents is positive")
     if holder is not None:
         holder.ghost["as_row"] = r
+    ctx.log_ghost("row", r)
+    return r
+
+
+def spec_row(ctx: Ctx, n, at, dtype="int"):
+    """A specification-level Row with rlen = n and relem(., q) = at(q), together with ground
+    extensionality instances against every shape row the executed body has built so far (so that
+    the solver can identify it with the body's own row when they agree element-wise)."""
+    prev = list(ctx.ghosts.get("row", []))
+    r = seq_as_row(ctx, Arr((n,), at, dtype, "tuple"))
+    for p in prev:
+        ctx.assume(row_ext(r, p))
+        ctx.assume(row_ext(p, r))
     return r
 
 
